@@ -619,8 +619,7 @@ def gen_wellformed(rng, nops):
     target = doc
     ops, hot, kinds = [], [], set()
     fail_at = rng.randrange(nops) if rng.random() < 0.35 else -1
-    for j in range(nops):
-        want_fail = (j == fail_at)
+    def one_op(want_fail):
         r = rng.random()
         if doc is None:
             o = mk_op(b"add", b"", value=gen_value(rng)) if rng.random() < 0.6 else mk_op(b"test", b"", value=None)
@@ -680,6 +679,21 @@ def gen_wellformed(rng, nops):
                 v = gen_value(rng)
             o = mk_op(b"test", p, value=v)
             kinds.add("test")
+        return o
+
+    for j in range(nops):
+        want_fail = (j == fail_at)
+        # an operation that is meant to apply is re-drawn (a few times) when it happens to fail,
+        # so that long patches are really carried through
+        for attempt in range(4):
+            o = one_op(want_fail)
+            try:
+                apply_op(doc, o)
+                applies = True
+            except Bad:
+                applies = False
+            if applies != want_fail or rng.random() < 0.12:
+                break
         if rng.random() < 0.08:
             ms = list(o[1])
             rng.shuffle(ms)
@@ -740,7 +754,7 @@ def gen_malformed(rng):
         opn = rng.choice([b"add", b"test", b"replace", b"remove", b"move", b"copy"])
         ms = [(b"op", opn), (b"path", some), (b"value", gen_value(rng)), (b"from", some)]
         which = rng.choice([0, 1, 1, 3, 3])
-        v = rng.choice(BAD_FIELD_VALUES)
+        v = None if rng.random() < 0.35 else rng.choice(BAD_FIELD_VALUES)
         ms[which] = (ms[which][0], v)
         if which == 3 and rng.random() < 0.5:
             ms[1] = (b"path", v if rng.random() < 0.5 else rng.choice(BAD_FIELD_VALUES))   # from and path both wrong-typed
@@ -825,8 +839,15 @@ WITNESSES = [
 ]
 
 
+OPMIX = {}
+
+
+def extra_coverage():
+    return {"operation_mix_of_wellformed_cases": dict(sorted(OPMIX.items()))}
+
+
 def gen(rng, tier):
-    n = 2600 if tier == "quick" else 60000
+    n = 9000 if tier == "quick" else 150000
     out = []
     for d, p in WITNESSES:
         for m in "ic":
@@ -839,7 +860,9 @@ def gen(rng, tier):
         if rng.random() < 0.68:
             nops = rng.choice([1, 2, 2, 3, 4, 5, 6, 8, 12])
             doc, ops, kind = gen_wellformed(rng, nops)
-            out.append((mk_line(mode, doc, ops), {"kind": "ops:" + kind}))
+            for k in kind.split("+"):
+                OPMIX[k] = OPMIX.get(k, 0) + 1
+            out.append((mk_line(mode, doc, ops), {"kind": "ops:%s" % ("1" if nops == 1 else "2-3" if nops <= 3 else "4-6" if nops <= 6 else "8-12")}))
         else:
             doc, patch, kind = gen_malformed(rng)
             out.append((mk_line(mode, doc, patch), {"kind": "malformed:" + kind}))
